@@ -977,7 +977,9 @@ func (c *CharClassMatcher) NullableVisit(rules map[string]*Rule) bool {
 
 // IsNullable returns the nullable attribute of the node.
 func (c *CharClassMatcher) IsNullable() bool {
-	return len(c.Chars) == 0 && len(c.Ranges) == 0 && len(c.UnicodeClasses) == 0
+	// A character class always consumes one rune when it matches; the empty
+	// class [] matches nothing at all (and [^] any rune), never the empty string.
+	return false
 }
 
 // InitialNames returns names of nodes with which an expression can begin.
